@@ -79,7 +79,7 @@ theorem c2_frame (h : Inv s) (ph : Phase { s with drv := c2_upd s.drv dr sh mg r
   { cfg := h.cfg, ng := h.ng, caps := h.caps, nf := h.nf, frames := h.frames, lg := h.lg, logIds := h.logIds,
     pending := fun r hr => ⟨c2_reqOK _ _ _ _ _ _ _ _ _ (h.pending r hr).1, c2_pagesOK _ _ _ _ _ _ _ _ _ (h.pending r hr).2.1,
       (h.pending r hr).2.2⟩,
-    ph := ph }
+    ph := ph, rel := ⟨h.rel.ranges, h.rel.queued, h.rel.flying⟩ }
 end frame
 
 
